@@ -101,7 +101,13 @@ func Run(c *core.Ctx) int {
 			leanReqs = append(leanReqs, "summary "+strings.TrimPrefix(r.Req, "calc ")+" "+calcproto.EncodeOut(inv))
 			leanDocs = append(leanDocs, d)
 		}
-		if errs := calcproto.TaxSummaryOracle(inv, sub, rule == "currency", d.Includes); len(errs) > 0 {
+		for k, n := range calcproto.Families(d) {
+			c.Count("family:"+k, int64(n))
+		}
+		errs := calcproto.TaxSummaryOracle(inv, sub, rule == "currency", d.Includes)
+		// groups are distinguished by the country the issuer wrote on the combo
+		errs = append(errs, calcproto.WrittenCountries(d, inv)...)
+		if len(errs) > 0 {
 			c.Fail("", "tax summary: "+strings.Join(errs, "; "), c01.Case{Doc: d})
 			continue
 		}
@@ -132,5 +138,5 @@ func Run(c *core.Ctx) int {
 			c.TieBroken("drive:C02/oracle", "the Lean driver did not understand the request: "+v, c01.Case{Doc: leanDocs[k]})
 		}
 	}
-	return c.Finish("random documents with 0-3 tax combos per row (ordinary and retained categories, explicit percentages, rate keys resolved by the regime, exempt combos, surcharges, extension-qualified combos, per-combo country overrides), zero and negative totals, with and without a tax-included category, both rules; judged by the Go-side oracle (math/big, with the stated rounding slack) and exactly by the Lean oracle Spec.C02.summaryOk on the encoded output; non-trivial = more than one rate group; distinct by encoded document", nil)
+	return c.Finish("random documents with 0-3 tax combos per row (ordinary and retained categories, explicit percentages, rate keys resolved by the regime, exempt combos, surcharges, extension-qualified combos, per-combo country overrides: by another regime, by a country without one, by every other code the document's own regime is registered under, next to the same rate without override; rows sharing a rate key the regime defines without values under different percentages; every registered regime and documents without one), zero and negative totals, with and without a tax-included category, both rules; judged by the Go-side oracle (math/big, with the stated rounding slack) and exactly by the Lean oracle Spec.C02.summaryOk on the encoded output, group countries judged against the countries WRITTEN on the combos (calcproto.WrittenCountries); non-trivial = more than one rate group; distinct by encoded document", nil)
 }
